@@ -448,6 +448,8 @@ paf24_seek (SF_PRIVATE *psf, int mode, sf_count_t offset)
 
 				psf_fseek (psf, psf->dataoffset + newblock * ppaf24->blocksize, SEEK_SET) ;
 				ppaf24->write_block = newblock ;
+				/* paf24_read_block () decides from read_block whether there is a block to load. */
+				ppaf24->read_block = newblock ;
 				paf24_read_block (psf, ppaf24) ;
 				/* The block just loaded is the one the next write goes to. */
 				psf_fseek (psf, psf->dataoffset + newblock * ppaf24->blocksize, SEEK_SET) ;
